@@ -141,6 +141,16 @@ class Effects:
             if isinstance(last, ast.Constant):
                 return str(last.value)
             return ""
+        if isinstance(expr, ast.Name):  # module-level (or imported) string constant
+            v = fi.module.assigns.get(expr.id)
+            if v is None and expr.id in fi.module.imports:
+                r = self.model.resolve_dotted(fi.module.imports[expr.id])
+                if r and "." in r:
+                    m, n = r.rsplit(".", 1)
+                    if m in self.model.modules:
+                        v = self.model.modules[m].assigns.get(n)
+            if isinstance(v, ast.Constant) and isinstance(v.value, str):
+                return v.value
         return None
 
     # --------------------------------------------------------- direct effects
